@@ -2553,7 +2553,11 @@ def compare_rows_for_journalling(old_map, new_map, old_field, new_field, to_keep
                 # row has been removed so don't count as kept
                 to_keep[i] = False
             else:
-                to_keep[i] = old_field[old_map[i]] != new_field[new_map[i]]
+                old_value = old_field[old_map[i]]
+                new_value = new_field[new_map[i]]
+                # a missing float (NaN) is not equal to itself; NaN in both versions is an unchanged cell
+                to_keep[i] = not (old_value == new_value or
+                                  (old_value != old_value and new_value != new_value))
 
 
 @exetera_njit
